@@ -24,6 +24,8 @@ func runC13(c *core.Ctx) {
 	c.RuleDoc("R13.6", "an Open that proceeds has a reason")
 	c.RuleDoc("R13.9", "the context behind Done() is the reader's own")
 	c.RuleDoc("R13.7", "background writers always report")
+	c.RuleDoc("R13.14", "no function of package tar returns with a mutex held")
+	c.RuleDoc("R13.15", "a pool buffer is allocated only after its slot was reserved in the pool's counter")
 	c.RuleDoc("R13.12", "only spawned writers send on the error channel")
 	c.RuleDoc("R13.13", "no error of a destination call is dropped (= R12.2)")
 	c.RuleDoc("R13.11", "the buffer pool never provisions more buffers than its channel holds (Done and every Open return)")
@@ -46,6 +48,10 @@ func runC13(c *core.Ctx) {
 		r13Truncation(c, p, "R13.10", pkgFuncs(p, "tar"))
 		r12PoolBound(c, p, "R13.11")
 		r13ReaderNeverSendsErrors(c, p)
+		// R13.14: no function of package tar returns with a mutex held (a leaked announce-table lock blocks every later
+		// Emit: the writers never finish, Done never closes, every Open waits for ever)
+		r17NoLockLeakInHandles(c, p, pkgFuncs(p, "tar"), "R13.14")
+		r13BuffersAreCounted(c, p, "R13.15")
 		// R13.13 (= R12.2): no error of a destination call is dropped — a directory whose mode could not be set fails the unpack
 		if sh12 := findTarShape(p); sh12 != nil && sh12.destField != "" && sh12.readErr != nil {
 			c.WithAlias(map[string]string{"R12.2": "R13.13"}, func() { r12Drop(c, p, sh12) })
@@ -61,6 +67,8 @@ func runC13(c *core.Ctx) {
 	c.Floor("R13.7", 1)
 	c.Floor("R13.8", 2)
 	c.Floor("R13.12", 1)
+	c.Floor("R13.14", 2)
+	c.Floor("R13.15", 1)
 	c.Floor("R13.13", 8)
 }
 
@@ -749,5 +757,62 @@ func r13ReaderNeverSendsErrors(c *core.Ctx, p *load.Program) {
 	}
 	if n == 0 {
 		c.Hard("anchor: sends on the error channel in package tar")
+	}
+}
+
+// r13BuffersAreCounted (R13.15 / R12.16): the pool's capacity argument — at most cap(channel) buffers exist, so
+// handing one back never blocks — needs every buffer to be counted: each allocation of the pool's element type in
+// package tar is dominated by the success edge of the atomic reservation of a slot (CompareAndSwap on the counter).
+// A buffer put into the channel "directly, nothing else can see the pool yet" makes cap+1 buffers possible; the last
+// Done() then blocks for ever inside a writer, the unpack never ends and Opens of missing names hang.
+func r13BuffersAreCounted(c *core.Ctx, p *load.Program, rule string) {
+	n := 0
+	for _, fn := range pkgFuncs(p, "tar") {
+		ord := ordinals{}
+		ssax.Instrs(fn, func(ins ssa.Instruction) {
+			a, ok := ins.(*ssa.Alloc)
+			if !ok || !a.Heap {
+				return
+			}
+			st, ok := a.Type().(*types.Pointer).Elem().Underlying().(*types.Struct)
+			if !ok {
+				return
+			}
+			// the pool's element type: a struct with a field that points back to a struct holding a channel of it
+			isElem := false
+			for i := 0; i < st.NumFields(); i++ {
+				pt, ok := st.Field(i).Type().(*types.Pointer)
+				if !ok {
+					continue
+				}
+				ps, ok := pt.Elem().Underlying().(*types.Struct)
+				if !ok {
+					continue
+				}
+				for j := 0; j < ps.NumFields(); j++ {
+					if ch, ok := ps.Field(j).Type().Underlying().(*types.Chan); ok && types.Identical(ch.Elem(), a.Type()) {
+						isElem = true
+					}
+				}
+			}
+			if !isElem {
+				return
+			}
+			n++
+			key := fname(fn) + "|" + ord.next("buffer-allocated-after-reservation")
+			reserved := false
+			for _, f := range ssax.FactsAtInstr(a) {
+				if cl, ok := f.Cond.(*ssa.Call); ok && f.Val {
+					if callee := ssax.StaticCallee(cl); callee != nil && callee.Pkg != nil && callee.Pkg.Pkg.Path() == "sync/atomic" && strings.HasPrefix(callee.Name(), "CompareAndSwap") {
+						reserved = true
+					}
+				}
+			}
+			c.Check(reserved, rule, key, p.Pos(a.Pos()), "the allocation follows the successful reservation of a slot",
+				fmt.Sprintf("%s allocates a pool buffer without having reserved its slot in the pool's counter (no dominating successful CompareAndSwap): more buffers than the channel's capacity can exist, and the Done() that hands the last one back blocks for ever — inside a writer the unpack waits for", fname(fn)))
+		})
+	}
+	if n == 0 {
+		c.Hard("anchor: allocation of the buffer pool's element type in package tar")
 	}
 }
